@@ -21,14 +21,15 @@
 (***************************************************************************)
 EXTENDS VoronoiOut, Json, IOUtils
 
-CONSTANTS Part, Gen
+CONSTANTS Part, Gen, SHARD, NSHARDS
 
 VARIABLES g,      \* index of the good output
           mut,    \* the corruption applied (c = "none" for none)
           fsv,    \* the resulting files
           cnb, cw,   \* cursors (lines consumed) of the neighbour / weight handle
-          last    \* the most recent read: [which, f, nmax, m, tell], or << >>
-vars == <<g, mut, fsv, cnb, cw, last>>
+          last,   \* the most recent read: [which, f, nmax, m, tell], or << >>
+          why     \* WhyFiles(fsv), decided once in the initial state
+vars == <<g, mut, fsv, cnb, cw, last, why>>
 
 M1 == 1000000
 \* ------------------------------------------------------------ hand-built frames
@@ -154,11 +155,12 @@ Tr == IF Part = "verdict" THEN ndJsonDeserialize(IOEnv.TRACE_FILE) ELSE << >>
 Init ==
   /\ cnb = 0 /\ cw = 0 /\ last = << >>
   /\ IF Part = "verdict"
-     THEN /\ g \in 1..Len(Tr) /\ mut = Tr[g].why /\ fsv = Tr[g].fs
+     THEN /\ g \in 1..Len(Tr) /\ g % NSHARDS = SHARD /\ mut = Tr[g].why /\ fsv = Tr[g].fs
      ELSE /\ g \in 1..Len(Goods)
           /\ LET fs == Render(Goods[g]) IN
-             /\ mut \in {m \in Muts(fs) : Applicable(fs, m)}
+             /\ mut \in {m \in Muts(fs) : Applicable(fs, m) /\ (g + m.i + m.k) % NSHARDS = SHARD}
              /\ fsv = Apply(fs, mut)
+  /\ why = WhyFiles(fsv)
 
 Read(which, nmax) ==
   LET c  == IF which = "nb" THEN cnb ELSE cw
@@ -168,23 +170,23 @@ Read(which, nmax) ==
              n == fsv.N[f] IN
          /\ last' = [which |-> which, f |-> f, nmax |-> nmax, m |-> ReadMatrix(ls, c, n, nmax), tell |-> ReadNext(c, n)]
          /\ IF which = "nb" THEN cnb' = ReadNext(c, n) /\ cw' = cw ELSE cw' = ReadNext(c, n) /\ cnb' = cnb
-      /\ UNCHANGED <<g, mut, fsv>>
+      /\ UNCHANGED <<g, mut, fsv, why>>
 
 Next == /\ Part = "model" /\ mut.c = "none"
         /\ \E which \in {"nb", "w"}, nmax \in NmaxSet : Read(which, nmax)
 Spec == Init /\ [][Next]_vars
 
 \* ------------------------------------------------------------ invariants
-InvGoodAccepted    == (Part = "model" /\ mut.c = "none") => WhyFiles(fsv) = ""
-InvCorruptRejected == (Part = "model" /\ mut.c # "none") => WhyFiles(fsv) \in ExpectedWhy(mut)
-InvVerdict         == Part = "verdict" => WhyFiles(fsv) = mut
+InvGoodAccepted    == (Part = "model" /\ mut.c = "none") => why = ""
+InvCorruptRejected == (Part = "model" /\ mut.c # "none") => why \in ExpectedWhy(mut)
+InvVerdict         == Part = "verdict" => why = mut
 \* a missing face is classified as the small-face pattern exactly when its weight is small,
 \* and tolerating the pattern accepts exactly those files
 InvSmallFaceClass ==
   (Part = "model" /\ mut.c = "dropentry") =>
      LET fs == Render(Goods[g])
          w  == Wts(fs, mut.f, mut.i)[mut.k] IN
-     /\ (WhyFiles(fsv) = "SymmetricMultiset:SmallFaceMissing") <=> (4 * w <= MaxW(fs, mut.f))
+     /\ (why = "SymmetricMultiset:SmallFaceMissing") <=> (4 * w <= MaxW(fs, mut.f))
      /\ (WhyFilesT(fsv, 1) = "") <=> (4 * w <= MaxW(fs, mut.f))
 
 Reading == Part = "model" /\ last # << >>
@@ -215,7 +217,7 @@ InvReadSymmetric ==
 
 Case ==
   IF last = << >>
-  THEN [t |-> "files", g |-> g, mut |-> mut, fs |-> fsv, why |-> WhyFiles(fsv)]
+  THEN [t |-> "files", g |-> g, mut |-> mut, fs |-> fsv, why |-> why]
   ELSE [t |-> "read", g |-> g, which |-> last.which, f |-> last.f, nmax |-> last.nmax, m |-> last.m, tell |-> last.tell]
 Emit == (Gen /\ Part = "model") => PrintT(ToJson(Case))
 =============================================================================
